@@ -134,6 +134,7 @@ type exec struct {
 	pos      token.Pos // position of the instruction being executed
 	lockedOwners []lockedOwner
 	ghostCells map[string]*Cell
+	shared   []*Cell // locals captured by a spawned goroutine: arbitrary after every later call
 }
 
 type retRec struct {
